@@ -38,8 +38,8 @@ type xssRoots struct {
 	// prevEnd (end of the previously emitted token) ≤ pos / ≤ pos-1 at entry
 	gap0, gap1 map[*ssa.Function]bool
 	// shortest accepted terminator length per search call (refined across rounds)
-	cmin   map[ssa.Instruction]int
-	cseen  map[ssa.Instruction]int
+	cmin   map[termKey]int
+	cseen  map[termKey]int
 	trans  []transition // of the last round
 	ctx    map[string]*xssCtx
 	rounds int
@@ -71,18 +71,30 @@ func (xr *xssRoots) getCtx(name string) *xssCtx {
 
 // noteAccepted records that a terminator found by search call org was accepted
 // with the cursor moved at least c bytes past its first byte.
-func (xr *xssRoots) noteAccepted(org ssa.Instruction, c int) {
+// termKey: a terminator search of one state function (a search made through a shared
+// helper — h.find(c) — is one search per state that uses it).
+type termKey struct {
+	state *ssa.Function
+	org   ssa.Instruction
+}
+
+func (xr *xssRoots) noteAccepted(state *ssa.Function, org ssa.Instruction, c int) {
 	xr.mu.Lock()
 	defer xr.mu.Unlock()
-	if old, ok := xr.cseen[org]; !ok || c < old {
-		xr.cseen[org] = c
+	k := termKey{state, org}
+	if old, ok := xr.cseen[k]; !ok || c < old {
+		xr.cseen[k] = c
 	}
 }
 
-func (xr *xssRoots) minTerminator(org ssa.Instruction) int {
+func (xr *xssRoots) minTerminator(state *ssa.Function, org ssa.Instruction) int {
 	xr.mu.Lock()
 	defer xr.mu.Unlock()
-	if c, ok := xr.cmin[org]; ok {
+	return xr.minTerminatorLocked(termKey{state, org})
+}
+
+func (xr *xssRoots) minTerminatorLocked(k termKey) int {
+	if c, ok := xr.cmin[k]; ok {
 		return c
 	}
 	return 4
@@ -328,7 +340,7 @@ func (xr *xssRoots) runAll(extra func(name string, hooks *absint.Hooks)) {
 	sort.Slice(states, func(i, j int) bool { return states[i].Name() < states[j].Name() })
 	xr.posGE1, xr.posLT, xr.posEQ0 = map[*ssa.Function]bool{}, map[*ssa.Function]bool{}, map[*ssa.Function]bool{}
 	xr.gap0, xr.gap1 = map[*ssa.Function]bool{}, map[*ssa.Function]bool{}
-	xr.cmin = map[ssa.Instruction]int{}
+	xr.cmin = map[termKey]int{}
 	isStart := map[*ssa.Function]bool{}
 	for _, s := range g.Starts {
 		isStart[s] = true
@@ -346,7 +358,7 @@ func (xr *xssRoots) runAll(extra func(name string, hooks *absint.Hooks)) {
 		xr.rounds = round + 1
 		xr.mu.Lock()
 		xr.runs = nil
-		xr.cseen = map[ssa.Instruction]int{}
+		xr.cseen = map[termKey]int{}
 		xr.mu.Unlock()
 		var wg sync.WaitGroup
 		sem := make(chan struct{}, 14)
@@ -363,9 +375,9 @@ func (xr *xssRoots) runAll(extra func(name string, hooks *absint.Hooks)) {
 		wg.Wait()
 		changed := false
 		xr.trans = nil
-		for org, c := range xr.cseen {
-			if xr.minTerminator(org) != c {
-				xr.cmin[org] = c
+		for k, c := range xr.cseen {
+			if xr.minTerminatorLocked(k) != c {
+				xr.cmin[k] = c
 				changed = true
 			}
 		}
